@@ -47,7 +47,9 @@ def _p9_cases(draw):
         case["valid_when"] = draw(st.booleans())
         case["then"] = draw(st.sampled_from(["none", "is_none", "fill_none"]))
     elif fn == "fill_none":
-        case["value"] = draw(st.sampled_from([0, -1, 2.5]))
+        # numbers, and a record taken from position k of an array of records (added after the seeded change C09-h - fill_none using record 0
+        # of that array instead of the given one - was missed)
+        case["value"] = draw(st.sampled_from([0, -1, 2.5, {"rec": 0}, {"rec": 1}, {"rec": 2}]))
         case["axis"] = draw(st.sampled_from([0, None]))
     elif fn == "pad_none":
         case["target"] = draw(st.integers(0, 4))
@@ -108,8 +110,13 @@ def _p9_run(case):
         kind, res = P.outcome(lambda: A.is_none(a))
     elif fn == "fill_none":
         x = case["value"]
+        xv = x
+        if isinstance(x, dict):
+            xv = A.Array([{"q": 10}, {"q": 20}, {"q": 30}])[x["rec"]]
+            x = {"q": 10 * (x["rec"] + 1)}
+            tags.append("value:record")
         expected = _fill_all(V, x) if case["axis"] is None else [(x if v is None else v) for v in V]
-        kind, res = P.outcome(lambda: A.fill_none(a, x, axis=case["axis"]))
+        kind, res = P.outcome(lambda: A.fill_none(a, xv, axis=case["axis"]))
     else:
         t, clip, axis = case["target"], case["clip"], case["axis"]
         if axis == 0:
